@@ -17,6 +17,7 @@ mod igcp;
 mod mspec;
 mod red;
 mod rr;
+mod tpflash;
 mod thermo;
 mod util;
 mod virial;
@@ -38,6 +39,7 @@ fn main() {
         "c19" => c19::run(&args),
         "c20" => c20::run(&args),
         "rr" => rr::run(&args),
+        "tpflash" => tpflash::run(&args),
         "thermo" => thermo::run(&args),
         "igcp" => igcp::run(&args),
         "equil" => equil::run(&args),
